@@ -20,7 +20,7 @@ TRUSTED = [
     'sqrt and the float32 .sum().item() accumulation are compared with tolerance 2e-5; rounding is not modelled',
     'the unclipped V is obtained from a second run with kl_clip=None on the identical state (weights are never updated by the harness)',
 ]
-THEOREMS = ['vg_sum_is_scaled_inner', 'nu_formula', 'nu_range', 'nu_bound', 'nu_zero', 'nu_tight', 'inner_split', 'only_rescales', 'clip_none_identity']
+THEOREMS = ['vg_sum_is_scaled_inner', 'nu_formula', 'nu_range', 'nu_bound', 'nu_zero', 'nu_tight', 'inner_split', 'only_rescales', 'clip_none_identity', 'same_scale_on_every_rank']
 NOTES = 'That one nu is shared by all ranks is checked by the tie (ratio computed jointly over ranks), not proved from a machine model.'
 
 
